@@ -10,6 +10,9 @@ def run(ctx):
     # self-test: the pinned DeleteOperator (plain DELETE removes the relationships of a connected node)
     ctx.tlc_gen("MC_CypherWrite", gen("C04", 5, 3, 3, emit="", inv=INV, props=PROPS, legacy='{"delete_connected"}'),
                 "legacy-selftest", expect_violation=True, workers=4)
+    # self-test: a relationship MERGE that never looks for the existing relationship creates a second match
+    ctx.tlc_gen("MC_CypherWrite", gen("HUB", 5, 5, 14, view=False, emit="", inv=INV, props=PROPS, hubsizes="{3}",
+                                      legacy='{"merge_rel_blind"}'), "mergerel-selftest", expect_violation=True, workers=4)
     # every transition of the abstract state graph within the history bound: ~45 statement shapes over CREATE (nodes, paths),
     # MERGE (ON CREATE / ON MATCH, unlabelled, per UNWIND / MATCH row), SET (property, from another property, swap, += map,
     # label, null, failing expression), REMOVE (property, label), DELETE / DETACH DELETE (nodes, relationships), with RETURN
@@ -19,13 +22,26 @@ def run(ctx):
         # one statement deeper over the basic alphabet
         deep = ctx.tlc_gen("MC_CypherWrite", gen("C04", 6, 4, 4, inv=INV, props=PROPS), "cover4", timeout=6000, workers=1)
         scripts = scripts + cap(ctx, [s for s in deep if len(s) == 4], 40000, "cover4")
+    # hub family, sequence-exhaustive (no VIEW, nothing sampled): a hub with 3-4 (thorough: 5) outgoing relationships created in
+    # every order, one (thorough: two) of them deleted by DELETE r or by DETACH DELETE of its target - every choice -, then
+    # MATCH (n:A),(m:B {k:x}) MERGE (n)-[r:T]->(m) towards every target still linked, in every order, with and without RETURN
+    hub = ctx.tlc_gen("MC_CypherWrite", gen("HUB", 7, 6, 14, view=False, emit="EmitHub", inv=INV, props=PROPS,
+                                            hubsizes="{3, 4}", hubdels=1), "hub", timeout=3000)
+    if not q:
+        hub += ctx.tlc_gen("MC_CypherWrite", gen("HUB", 7, 6, 14, view=False, emit="EmitHub", inv=INV, props=PROPS,
+                                                 hubsizes="{3, 4}", hubdels=2), "hub-2del", timeout=3000)
+        hub += ctx.tlc_gen("MC_CypherWrite", gen("HUB", 8, 7, 14, view=False, emit="EmitHub", inv=INV, props=PROPS,
+                                                 hubsizes="{5}", hubdels=1, huball=False), "hub-5", timeout=3000)
+        hub += ctx.tlc_gen("MC_CypherWrite", gen("HUB", 8, 7, 14, view=False, emit="EmitHub", inv=INV, props=PROPS,
+                                                 hubsizes="{5}", hubdels=2, huball=False), "hub-5-2del", timeout=3000)
     walks = sim_walks(ctx, gen("C04", 8, 6, 6, view=False, emit="", inv=INV, rich=True, sim=True), "walks", 200 if q else 6000, 8)
     ctx.assume("graphs of <= 6 nodes / 4 relationships grown from the empty graph by the statements themselves; labels {A,B}, keys {k,p}, "
                "integer values; no constraints or indexes (C05 / C11 cover those)",
                "returned rows are compared as bags; the order in which MATCH feeds rows to the write clause is left open",
                "a stored null and an absent property are not distinguished; WITH only as MATCH (n) WITH n <write> (thorough tier and walks); "
-               "FOREACH, path MERGE, MERGE of relationships and SET n = {..} are not modelled")
-    for name, ss in (("cover", scripts), ("walks", walks)):
+               "relationship MERGE only between bound endpoints (MATCH (n..),(m..) MERGE (n)-[r:T]->(m)); FOREACH, path MERGE and "
+               "SET n = {..} are not modelled")
+    for name, ss in (("cover", scripts), ("hub", hub), ("walks", walks)):
         sp = ctx.write_scripts(name, ss)
         tr = ctx.run_harness("cywrite", sp, name=name, args=["cap=14", "probes=1", "universe=i1,i2,i3"])
         ctx.validate("CypherWrite_Trace", trace_cfg(10, 8, True), tr, name=name, corrupt=corrupt_dump)
